@@ -92,12 +92,16 @@ def plain(x, depth=0):
 
     if depth > 60:
         return repr(x)
-    if x is None or isinstance(x, (bool, int, str)):
-        return x
-    if isinstance(x, float):
-        return x
     if isinstance(x, numpy.generic):
         return plain(x.item(), depth + 1)
+    if x is None or isinstance(x, bool):
+        return x
+    if isinstance(x, str):
+        return str(x)
+    if isinstance(x, int):
+        return int(x)
+    if isinstance(x, float):
+        return float(x)
     if isinstance(x, numpy.ndarray):
         return plain(x.tolist(), depth + 1)
     if isinstance(x, bytes):
@@ -169,6 +173,38 @@ def strip_version(d):
 
 
 DICT_FAMILY = ("json", "rich dict", "from_rich_dict")
+COPY_FAMILY = ("pickle", "deepcopy")  # copy.deepcopy goes through the same __reduce_ex__ protocol as pickle
+
+
+def family_of(ch):
+    return "dict" if ch in DICT_FAMILY else "copy"
+
+
+def first_changed_entry(a, b, key="<top>"):
+    """name of the first dict entry (schema key, not an input value) whose value differs between two rich dicts"""
+    if isinstance(a, dict) and isinstance(b, dict):
+        if sorted(a) != sorted(b):
+            return key
+        for k in sorted(a):
+            r = first_changed_entry(a[k], b[k], k if k in SCHEMA_KEYS else key)
+            if r:
+                return r
+        return None
+    if isinstance(a, list) and isinstance(b, list):
+        if len(a) != len(b):
+            return key
+        for x, y in zip(a, b):
+            r = first_changed_entry(x, y, key)
+            if r:
+                return r
+        return None
+    return None if a == b else key
+
+
+SCHEMA_KEYS = {"dtype", "values", "columns", "order", "data", "init_table", "seq", "seqs", "init_args", "moltype", "info", "name", "annotation_offset", "annotation_db", "map_init",
+               "seq_init", "gap_pos", "cum_gap_lengths", "parent_length", "termini_unknown", "spans", "newick", "edge_attributes", "length", "param_rules", "motif_probs", "lnL", "nfp",
+               "alignment", "tree", "model", "likelihood_construction", "array", "names", "dists", "invalid", "items", "result_construction", "seqs_data", "alphabet", "reversed_seqs",
+               "step", "start", "stop", "offset", "seqid", "seq_len", "words", "monomers", "gap", "missing", "chars", "k", "title", "legend", "index_name", "DLC", "unique_Q", "tables", "user", "gff", "gb"}
 
 
 def channels(obj):
@@ -194,10 +230,11 @@ def check_roundtrips(acc, what, cls, obj, observe, case, nontrivial=True, idempo
 
     observe(obj, channel) -> Obs.  One defect in the dict family (json / rich dict / from_rich_dict share their code) is
     reported once per state, under the first channel that shows it."""
-    dict_family_failed = False
+    failed = set()  # channel families already reported for this state
     for ch, fn in channels(obj):
         acc.case({"what": what, "channel": ch, **case}, nontrivial=nontrivial)
         acc.transitions += 1
+        fam = family_of(ch)
         with warnings.catch_warnings():
             warnings.simplefilter("ignore")
             want = observe(obj, ch)
@@ -207,19 +244,19 @@ def check_roundtrips(acc, what, cls, obj, observe, case, nontrivial=True, idempo
                     post(r)
             except Exception as e:  # noqa: BLE001
                 acc.outcome((what, ch, "raised", type(e).__name__))
-                if ch in DICT_FAMILY and dict_family_failed:
+                if fam in failed:
                     continue
-                dict_family_failed = dict_family_failed or ch in DICT_FAMILY
+                failed.add(fam)
                 acc.fail(f"{what}: {ch} round trip raised {type(e).__name__} [{cls}]", dict(case, channel=ch),
-                         {"error": f"{type(e).__name__}: {e}"[:300], "original": [list(w[:2]) for w in want][:8]})
+                         {"error": f"{type(e).__name__}: {e}"[:300], "original": [list(w[:2]) for w in want][:4]})
                 continue
             got = observe(r, ch)
             diff = first_difference(want, got)
             if diff:
                 acc.outcome((what, ch, "differs", diff[0]))
-                if ch in DICT_FAMILY and dict_family_failed:
+                if fam in failed:
                     continue
-                dict_family_failed = dict_family_failed or ch in DICT_FAMILY
+                failed.add(fam)
                 acc.fail(f"{what}: {ch} round trip: {diff[0]} differs [{cls}]", dict(case, channel=ch),
                          {"observable": diff[0], "got": diff[1], "want": diff[2]})
                 continue
@@ -233,7 +270,8 @@ def check_roundtrips(acc, what, cls, obj, observe, case, nontrivial=True, idempo
                     acc.fail(f"{what}: second json round trip raised {type(e).__name__} [{cls}]", dict(case, channel=ch), {"error": str(e)[:300]})
                     continue
                 if d1 != d2:
-                    acc.fail(f"{what}: json round trip is not idempotent (rt(rt(x)) serialises differently from rt(x)) [{cls}]", dict(case, channel=ch),
+                    entry = first_changed_entry(json.loads(d1), json.loads(d2))
+                    acc.fail(f"{what}: json round trip is not idempotent: entry '{entry}' of rt(rt(x)).to_rich_dict() differs from that of rt(x)", dict(case, channel=ch),
                              {"rt(x)": d1[:600], "rt(rt(x))": d2[:600]})
 
 
@@ -1282,7 +1320,7 @@ PROT3 = {"a": "MARNDCQEGH", "b": "MARNDCQEGW", "c": "MSRNDCKEGH"}
 def _stats_dict(lf):
     out = {}
     for t in lf.get_statistics(with_motif_probs=False, with_titles=True):
-        out[str(t.title)] = [list(t.header)] + [[plain(v) for v in row] for row in t.to_list()]
+        out[str(t.title)] = [[h, plain(t.columns[h].tolist())] for h in t.header]
     return out
 
 
@@ -1609,8 +1647,8 @@ def observe_table(t, ch):
     o.add("class", lambda: type(t).__name__)
     o.add("header", lambda: list(t.header))
     o.add("shape", lambda: list(t.shape))
-    o.add("rows", lambda: t.to_list() if t.shape[0] else [])
-    o.add("cell types", lambda: [[type(plain(v)).__name__ for v in row] for row in t.to_list()] if t.shape[0] else [])
+    o.add("columns", lambda: [[h, plain(t.columns[h].tolist())] for h in t.header])
+    o.add("cell types", lambda: [[h, [type(plain(v)).__name__ for v in t.columns[h].tolist()]] for h in t.header])
     o.add("title, legend", lambda: [t.title, t.legend])
     o.add("index_name", lambda: t.index_name)
     return o
@@ -1659,7 +1697,7 @@ def _result_value(v):
     if hasattr(v, "get_log_likelihood"):
         return {"lf": [(w[0], w[1]) for w in observe_lf(v, None)]}
     if hasattr(v, "to_dict") and hasattr(v, "header"):
-        return {"table": [list(v.header), v.to_list()]}
+        return {"table": [[h, plain(v.columns[h].tolist())] for h in v.header]}
     if hasattr(v, "to_dict") and hasattr(v, "names") and hasattr(v, "moltype"):
         return {"seqs": {n: str(s) for n, s in v.to_dict().items()}}
     if hasattr(v, "template") and hasattr(v, "array"):
@@ -1716,7 +1754,10 @@ def static_items(family, b):
         for lab in labels:
             m = old_mt.get_moltype(lab)
             for kind in ("base", "degen", "gapped", "degen_gapped"):
-                yield (f"old:{lab}:{kind}", "old-style alphabet", f"{kind} character alphabet", lambda m=m, kind=kind: getattr(m.alphabets, kind), observe_old_alphabet, True)
+                if lab in ("text", "bytes") and kind != "degen_gapped":
+                    continue  # these molecular types have one alphabet
+                yield (f"old:{lab}:{kind}", "old-style alphabet", "character alphabet", lambda m=m, kind=kind: getattr(m.alphabets, kind), observe_old_alphabet, True)
+            yield (f"old:{lab}:alphabet", "old-style alphabet", "character alphabet", lambda m=m: m.alphabet, observe_old_alphabet, True)
             if lab in ("dna", "rna", "protein"):
                 for k in (2, 3):
                     if lab == "protein" and k == 3:
@@ -1734,11 +1775,11 @@ def static_items(family, b):
                     if lab == "protein" and k == 3:
                         continue
                     for gap in (False, True):
-                        yield (f"new:{lab}:kmer{k}:{gap}", "new-style KmerAlphabet", "k-mer alphabet" + (" with gap state" if gap else ""),
+                        yield (f"new:{lab}:kmer{k}:{gap}", "new-style KmerAlphabet", "k-mer alphabet",
                                lambda m=m, k=k, gap=gap: (m.gapped_alphabet if gap else m.alphabet).get_kmer_alphabet(k, include_gap=gap), observe_new_alphabet, True)
         for i in (1, 2, 11):
             for gap in (False, True):
-                yield (f"new:codon:{i}:{gap}", "new-style CodonAlphabet", "codon alphabet of a genetic code" + (" with gap state" if gap else ""),
+                yield (f"new:codon:{i}:{gap}", "new-style CodonAlphabet", "codon alphabet of a genetic code" + (", gap state included" if gap else ""),
                        lambda i=i, gap=gap: new_gc.get_code(i).get_alphabet(include_gap=gap), observe_new_alphabet, True)
     elif family == "moltypes":
         for lab in labels:
@@ -1764,10 +1805,10 @@ def static_items(family, b):
                     yield (f"{sname}:{dt}:row", "DictArray", f"{len(names)}-dimensional, after selecting a row", lambda names=names, arr=arr: DictArrayTemplate(*names).wrap(arr)[names[0][1]], observe_dictarray, True)
                     yield (f"{sname}:{dt}:rows", "DictArray", f"{len(names)}-dimensional, after selecting a list of rows", lambda names=names, arr=arr: DictArrayTemplate(*names).wrap(arr)[[names[0][1], names[0][0]]], observe_dictarray, True)
         aln = lambda: make_aligned_seqs({"a": "ACGT-", "b": "ACGAA", "c": "GCG-A"}, moltype="dna")  # noqa: E731
-        yield ("profile:counts", "MotifCountsArray", "counts_per_pos() of an alignment", lambda: aln().counts_per_pos(), observe_dictarray, True)
-        yield ("profile:freqs", "MotifFreqsArray", "counts_per_pos().to_freq_array()", lambda: aln().counts_per_pos().to_freq_array(), observe_dictarray, True)
-        yield ("profile:pssm", "PSSM", "counts_per_pos().to_pssm()", lambda: aln().counts_per_pos(allow_gap=False).to_pssm(), observe_dictarray, True)
-        yield ("counts_per_seq", "MotifCountsArray", "counts_per_seq() of an alignment", lambda: aln().counts_per_seq(), observe_dictarray, True)
+        yield ("profile:counts", "profile array (DictArray subclass)", "MotifCountsArray / MotifFreqsArray / PSSM", lambda: aln().counts_per_pos(), observe_dictarray, True)
+        yield ("profile:freqs", "profile array (DictArray subclass)", "MotifCountsArray / MotifFreqsArray / PSSM", lambda: aln().counts_per_pos().to_freq_array(), observe_dictarray, True)
+        yield ("profile:pssm", "profile array (DictArray subclass)", "MotifCountsArray / MotifFreqsArray / PSSM", lambda: aln().counts_per_pos(allow_gap=False).to_pssm(), observe_dictarray, True)
+        yield ("counts_per_seq", "profile array (DictArray subclass)", "MotifCountsArray / MotifFreqsArray / PSSM", lambda: aln().counts_per_seq(), observe_dictarray, True)
     elif family == "distance_matrices":
         pool = ["s1", "s10", "a b", "Z"]
         for n in range(2, b["distance_names"] + 1):
